@@ -36,7 +36,29 @@ def obligations(tier):
             obs.append(Ob(f"pattern/{name}/lookback={lookback}", dict(fn=name, N=13, lookback=lookback), CFG, fn="run_pattern", weight=30, budget_s=900, max_paths=200000))
     for name in ("rising", "highestbar", "crossover", "cross", "value_range", "mean_rising", "lowest"):
         obs.append(Ob(f"amorph-live-vs-batch/{name}", dict(fn=name, N=4), CFG, fn="run_amorph", weight=10, budget_s=900))
+    # patterns wrapped as indicators on a collapsing timeframe, fed minute by minute: the open bucket is evaluated,
+    # then grows by merges and is evaluated again - the column must equal the batch column
+    for name in (("doji",) if tier == "quick" else PATTERNS):
+        obs.append(Ob(f"amorph-pattern-live-vs-batch/{name}/T2", dict(fn=name, N=23), CFG, fn="run_amorph_pattern_tf", weight=40, budget_s=900, max_paths=20000))
     return obs
+
+
+def run_amorph_pattern_tf(ctx, P):
+    name, N = P["fn"], P["N"]
+    key = {"inverted_hammer": "inv_hammer"}.get(name, name)
+    cs = mk_candles(ctx, N)
+    live = build_amorph(key, {}, candles=[], timeframe="T2")
+    for c in clone(cs):
+        live.append(c)
+    batch = build_amorph(key, {}, candles=clone(cs), timeframe="T2")
+    batch.calculate()
+    ctx.observe("column", batch.as_list())
+    ctx.equal("pattern column on a timeframe: live==batch", snap(live.candles), snap(batch.candles))
+    chunked = build_amorph(key, {}, candles=clone(cs)[:20], timeframe="T2")
+    chunked.calculate()
+    for c in clone(cs)[20:]:
+        chunked.append(c)
+    ctx.equal("pattern column on a timeframe: preloaded+appended==batch", snap(chunked.candles), snap(batch.candles))
 
 
 def mk_marked(ctx, n, use_b):
@@ -102,7 +124,7 @@ def run_amorph(ctx, P):
 
 
 META = dict(
-    bounds=dict(quick="movement functions: N=3 candles, readings A/B each symbolic-or-missing per candle, index in [-3,2], length in [0,4]; patterns: N=13 candles, index in [9,12], lookback in {None,1,2}; Amorph column live vs batch for 7 functions over 4 candles",
+    bounds=dict(quick="movement functions: N=3 candles, readings A/B each symbolic-or-missing per candle, index in [-3,2], length in [0,4]; patterns: N=13 candles, index in [9,12], lookback in {None,1,2}; Amorph column live vs batch for 7 functions over 4 candles; pattern wrappers (doji; thorough: all four) on T2 over 23 one-minute candles, live vs batch",
                 thorough="movement N=4, length in [0,5]"),
     stubs=["exact real arithmetic; products/quotients uninterpreted with exact re-check on mismatch"],
     assumptions=["pattern indices below 10 return False by construction and are not enumerated"],
